@@ -223,10 +223,12 @@ class MemTransport(repo.base_transport.BaseTransport):
         self.lock_probe = threading.Lock()
 
     def _excl(self):
+        # never two actors inside the transport: a failed try-acquire is the violation; the blocking acquire that follows
+        # keeps the simulator and the monitors (which are not thread-safe) from becoming the race themselves
         c = self.core
         if not self.lock_probe.acquire(False):
             c.mutex_violations += 1
-            return False
+            self.lock_probe.acquire()
         return True
 
     def close(self):
